@@ -673,8 +673,8 @@ func main() {
 		runCase(c)
 		return
 	}
-	nBig := run.N(9, 60)
-	nRand := run.N(12000, 150000)
+	nBig := run.N(9, 240)
+	nRand := run.N(12000, 900000)
 	idx := 0
 	for i := 0; i < nBig; i++ {
 		idx++
